@@ -94,13 +94,48 @@ def resolveVars (fuel : Nat) : List Rule → List Rule → Except RErr (List Rul
       resolveVars fuel (done ++ [r.setFld 1 (.l vals)]) rs
     else resolveVars fuel (done ++ [r]) rs
 
-/-- `Resolve`: preamble and the attachments of the profile -/
-def resolve (fuel : Nat) (pre : List Rule) (att : List (List Char)) :
+/-- every match of `@{([^{}]+)}` in a value, leftmost first, not overlapping: the names -/
+def allRefsF : Nat → List Char → List (List Char)
+  | 0, _ => []
+  | _, [] => []
+  | f + 1, c :: cs =>
+    if tokOpen.isPrefixOf (c :: cs) then
+      let rest := (c :: cs).drop 2
+      let nm := rest.takeWhile (fun x => x != '{' && x != '}')
+      match rest.drop nm.length with
+      | '}' :: after => if nm.isEmpty then allRefsF f cs else nm :: allRefsF f after
+      | _ => allRefsF f cs
+    else allRefsF f cs
+
+def allRefs (t : List Char) : List (List Char) := allRefsF (t.length + 1) t
+
+/-- the names a variable refers to directly (over all the rules that carry that name) -/
+def refsOf (vars : List Rule) (name : List Char) : List (List Char) :=
+  ((vars.filter (fun v => isVar v && vName v == name)).flatMap (fun v => (vValues v).flatMap allRefs)).eraseDups
+
+/-- `n` rounds of "and what those refer to" -/
+def reachN (vars : List Rule) : Nat → List (List Char) → List (List Char)
+  | 0, s => s
+  | n + 1, s => reachN vars n ((s ++ s.flatMap (refsOf vars)).eraseDups)
+
+/-- `cyclicVariable() != ""`: some variable reaches itself through its references -/
+def hasCycle (vars : List Rule) : Bool :=
+  vars.any (fun v => isVar v && (reachN vars vars.length (refsOf vars (vName v))).contains (vName v))
+
+/-- `Resolve` without the cycle test -/
+def resolveCore (fuel : Nat) (pre : List Rule) (att : List (List Char)) :
     Except RErr (List Rule × List (List Char)) := do
   let folded ← foldAppends pre [] []
   let pre' ← resolveVars fuel [] folded
   let att' ← resolveList pre' fuel att
   pure (pre', att')
+
+/-- `Resolve`: preamble and the attachments of the profile; a cycle between variables is an error (fix commit) -/
+def resolve (fuel : Nat) (pre : List Rule) (att : List (List Char)) :
+    Except RErr (List Rule × List (List Char)) :=
+  match foldAppends pre [] [] with
+  | .error e => .error e
+  | .ok folded => if hasCycle folded then .error .recursive else resolveCore fuel pre att
 
 /-- `Profile.GetAttachments` -/
 def getAttachments : List (List Char) → List Char
